@@ -114,4 +114,116 @@ theorem bindLocalsMatch {β0 β : Inj N} {s s' : State N} (h : SRel Q cx0 β s s
     have e1 : (s'.allocCell (first vs')).1 = s'.cells.length := rfl
     exact ⟨β', hle, hx.trans hext, by simpa [bindLocals, e1] using hs, by simpa [bindLocals, pairUp, e1] using henv⟩
 
+open Rules.GroupLocal in
+/-- `evalFirsts` is `evalEs` followed by truncation, on every path -/
+theorem evalFirsts_eq (call : CallFn N) (ρ : ExtOracle N) (k : Nat) (env : Env N) (es : List Expr) (σ : State N) :
+    evalFirsts call ρ k env es σ = (evalEs call ρ k env es σ).bind fun ws s => .ok (padTake es.length ws) s := by
+  induction es generalizing σ with
+  | nil => simp [evalFirsts, evalEs, Res.bind, padTake]
+  | cons e es ih =>
+    cases es with
+    | nil =>
+      simp only [evalFirsts, evalEs]
+      cases evalE call ρ k env e σ <;> simp [Res.bind, padTake]
+    | cons e' es' =>
+      rw [evalFirsts, evalEs]
+      cases evalE call ρ k env e σ with
+      | ok vs s1 =>
+        simp only [Res.bind]
+        rw [ih s1]
+        cases evalEs call ρ k env (e' :: es') s1 <;> simp [Res.bind, padTake, first]
+      | err v s1 => simp [Res.bind]
+      | timeout => simp [Res.bind]
+      · simp
+
+open Rules.GroupLocal in
+theorem first_drop_padTake (n i : Nat) (ws : List (Val N)) (hi : i < n) :
+    first ((padTake n ws).drop i) = first (ws.drop i) := by
+  induction n generalizing i ws with
+  | zero => omega
+  | succ n ih =>
+    cases i with
+    | zero => simp [padTake, first]
+    | succ j =>
+      simp only [padTake, List.drop_succ_cons]
+      rw [ih j (ws.drop 1) (by omega)]
+      simp
+
+open Rules.GroupLocal in
+theorem padTake_rel {β : Inj N} (n : Nat) {ws ws' : List (Val N)} (h : VsRel β ws ws') :
+    VsRel β (padTake n ws) (padTake n ws') := by
+  induction n generalizing ws ws' with
+  | zero => exact .nil
+  | succ n ih => exact .cons (VRel.first h) (ih (h.drop 1))
+
+open Rules.GroupLocal in
+/-- **the merge as a generic leaf** (second declaration WITH values). `r1` is what the merged statement evaluates for
+the first variables: `vs1` itself (as many values as variables) or one `nil` per variable (`vs1 = []`); `hr1` says so. -/
+theorem merge_sound (hq : QRefl Q) {D : List DName} (k1 k2 km : LocalKind) (ns1 ns2 : List TName)
+    (vs1 r1 vs2 : List Expr) (rest : List Stmt) (hv2 : vs2 ≠ [])
+    (hr1 : ∀ (N : NumOps) (call : CallFn N) (ρ : ExtOracle N) (k : Nat) (env : Env N) (σ : State N),
+      evalFirsts call ρ k env r1 σ = (evalEs call ρ k env vs1 σ).bind fun ws s => .ok (padTake ns1.length ws) s)
+    (hn1 : NoRefEs D vs1) (hn2 : NoRefEs (Heap.refNames ns1 ++ D) vs2) (hnrest : NoRefSs D rest)
+    (hw1 : ∀ n ∈ ns1.map TName.name, DName.wat n ∉ D) (hw2 : ∀ n ∈ ns2.map TName.name, DName.wat n ∉ D) :
+    SoundSs Q cx0 D (.localAssign k1 ns1 vs1 :: .localAssign k2 ns2 vs2 :: rest)
+      (.localAssign km (ns1 ++ ns2) (r1 ++ vs2) :: rest) D := by
+  refine ⟨DSub.refl D, ?_⟩
+  intro N call ρ k env env' σ σ' β hp hs he
+  simp only [execSs, execS, evalEs_append call ρ k env' r1 vs2 hv2, hr1]
+  have h1 := reflEs hq vs1 D hn1 N call ρ k env env' σ σ' β hp hs he
+  revert h1
+  generalize evalEs call ρ k env vs1 σ = rl
+  generalize evalEs call ρ k env' vs1 σ' = rr
+  intro h1
+  cases rl <;> cases rr <;> simp only [HeapU.RRel] at h1
+  · rename_i ws1 s1 ws1' s1'
+    obtain ⟨β1, hle1, hvs1, hs1⟩ := h1
+    simp only [Res.bind]
+    have hD2 : DSub D (Heap.refNames ns1 ++ D) := DSub.refs (ns1.map TName.name) D
+    obtain ⟨β2, hle2, hs2, he2, hpins⟩ := bindLocalsLeftPinned hs1 (D := Heap.refNames ns1 ++ D)
+      (ns1.map TName.name) (refNames_ok hw1) ws1 ((he.mono hle1).loc.weaken hD2)
+    have h2 := reflEs hq vs2 _ hn2 N call ρ k
+      ⟨(bindLocals (ns1.map TName.name) ws1 env.locals s1).1, env.varargs⟩ env' _ s1' β2 hp hs2
+      ⟨VsRel.mono (Inj.le_trans hle1 hle2) he.va, he2⟩
+    revert h2
+    generalize evalEs call ρ k ⟨(bindLocals (ns1.map TName.name) ws1 env.locals s1).1, env.varargs⟩ vs2
+      (bindLocals (ns1.map TName.name) ws1 env.locals s1).2 = rl2
+    generalize evalEs call ρ k env' vs2 s1' = rr2
+    intro h2
+    cases rl2 <;> cases rr2 <;> simp only [HeapU.RRel] at h2
+    · rename_i ws2 s3 ws2' s3'
+      obtain ⟨β3, hle3, hvs2, hs3⟩ := h2
+      simp only []
+      have hlen1 : (ns1.map TName.name).length = ns1.length := List.length_map _
+      have hright : bindLocals (List.map TName.name (ns1 ++ ns2)) (padTake ns1.length ws1' ++ ws2') env'.locals s3'
+          = bindLocals (ns2.map TName.name) ws2'
+              (bindLocals (ns1.map TName.name) (padTake ns1.length ws1') env'.locals s3').1
+              (bindLocals (ns1.map TName.name) (padTake ns1.length ws1') env'.locals s3').2 := by
+        rw [List.map_append, bindLocals_append, hlen1, List.drop_left' (length_padTake _ _)]
+        rw [← bindLocals_padTake (ns1.map TName.name) (padTake ns1.length ws1' ++ ws2'), hlen1,
+          padTake_append _ _ _ (length_padTake _ _)]
+      rw [hright, bindLocals_env (ns1.map TName.name) ws1]
+      have hle13 := Inj.le_trans hle2 hle3
+      obtain ⟨β4, h04, hext, hs4, he4⟩ := bindLocalsMatch hs3 hle13 (D := D) (ns1.map TName.name) hw1 s1.cells.length
+        (padTake ns1.length ws1) (padTake ns1.length ws1')
+        (fun i hi => by
+          rw [first_drop_padTake _ _ _ (by simpa using hi)]
+          exact hle3.pinsCL _ (hpins i hi))
+        (padTake_rel _ (VsRel.mono hle13 hvs1)) hs1.front.cL
+        (Nat.le_trans hle13.front.2.1 hs3.front.cR)
+        (fun p hp0 => getElem?_lt (hs1.pinCl p hp0).1)
+        (l := env.locals) (l' := env'.locals) ((he.mono (Inj.le_trans hle1 hle13)).loc)
+      obtain ⟨β5, hle5, hs5, he5⟩ := hs4.bindLocals (D := D) (ns2.map TName.name) hw2 (hext.vsrel hvs2) he4
+      have hle05 : β.le β5 := Inj.le_trans hle1 (Inj.le_trans h04 hle5)
+      exact RRel.mono hle05 ((reflSs hq rest D hnrest).2 N call ρ k _ _ _ _ β5 hp hs5
+        ⟨VsRel.mono hle05 he.va, he5⟩)
+    all_goals first
+      | (obtain ⟨β3, hle3, hv, hs3⟩ := h2; exact ⟨β3, Inj.le_trans hle1 (Inj.le_trans hle2 hle3), hv, hs3⟩)
+      | trivial
+      | (exact absurd h2 (by decide))
+  all_goals first
+    | (obtain ⟨β1, hle1, hv, hs1⟩ := h1; exact ⟨β1, hle1, hv, hs1⟩)
+    | trivial
+    | (exact absurd h1 (by decide))
+
 end DarkluaModel.C16.GroupU
